@@ -278,7 +278,13 @@ func (g *c01xGen) step() {
 		if d < 0 || !g.allow8H {
 			return
 		}
-		switch r.intn(3) {
+		switch r.intn(5) {
+		case 3: // self-cancelling opcode on two different bytes of one register: both are read
+			g.emit(pick(r, []string{"XORB", "SUBB"}), cv(d, reg.S8H), cv(d, reg.S8L))
+			g.flags = true
+		case 4:
+			g.emit(pick(r, []string{"XORB", "SUBB"}), cv(d, reg.S8L), cv(d, reg.S8H))
+			g.flags = true
 		case 0:
 			g.emit("MOVB", cv(d, reg.S8H), cv(d, reg.S8L))
 		case 1:
